@@ -38,7 +38,9 @@ import json
 import os
 import pickle
 import sys
+import threading
 import time
+import traceback
 import types
 
 from .. import common as C
@@ -955,6 +957,589 @@ def judge(ctx, drv, family, case):
     return True, stats
 
 
+# ---------------------------------------------------------------- application code that is active inside the listener
+
+ACT_LIMITS = (20.0, 45.0)     # wall-clock watchdog: ONLY turns a listener that never returns into a report
+KEEP = 'a0'                   # a client of hA that nothing in a case ever disconnects
+
+
+def gen_script(rng, nxt, keepers, victims, depth, self_sid=None):
+    """what an application callback / disconnect handler does with the server's own API.  Clients are named by sid
+    only when nothing ever disconnects them (`keepers`, clients of hB): while a client's disconnect handler runs the
+    client is half gone (rooms still there, `is_connected` false), and what is done to it by name then is not the
+    subject here.  Rooms and broadcasts may well contain it."""
+    acts = []
+    subs = {}
+    for _ in range(rng.choice([1, 1, 2, 2, 3])):
+        x = rng.random()
+        if x < 0.50:
+            to = rng.choice([None, None, {'r': 'r1'}, {'r': 'r2'}, {'s': rng.choice(keepers)}, {'s': rng.choice(keepers)},
+                             {'s': rng.choice(['b0', 'b1'])}, {'list': [{'r': 'r1'}, {'s': KEEP}]}])
+            cb = None
+            if depth == 0 and to is not None and 's' in to and to['s'] in ('b0', 'b1') and rng.random() < 0.6:
+                cb = nxt()
+                sub, _s = gen_script(rng, nxt, keepers, victims, 1)
+                subs['cb%d' % cb] = sub
+            skip = {'one': rng.choice(keepers)} if rng.random() < 0.15 else None
+            i = cb if cb is not None else nxt()
+            acts.append({'a': 'emit', 'ns': NS, 'to': to, 'skip': skip, 'cb': cb, 'idx': i,
+                         'data': rng.choice(c07.DATA_KINDS)})
+        elif x < 0.64:
+            acts.append({'a': rng.choice(['enter', 'enter', 'leave']), 'ns': NS, 'sid': rng.choice(keepers + ['b0']),
+                         'room': {'r': rng.choice(['r1', 'r2'])}})
+        elif x < 0.74:
+            acts.append({'a': 'close', 'ns': NS, 'room': {'r': rng.choice(['r1', 'r2'])}})
+        elif x < 0.86:
+            cands = [v for v in victims if v != self_sid] + ['b1']
+            acts.append({'a': 'disconnect', 'ns': NS, 'sid': rng.choice(cands)})
+        elif x < 0.93:
+            acts.append({'a': 'rooms', 'ns': NS, 'sid': rng.choice(keepers)})
+        else:
+            acts.append({'a': 'session', 'ns': NS, 'sid': rng.choice(keepers), 'v': nxt()})
+    return {'acts': acts, 'raise': rng.random() < 0.2}, subs
+
+
+def gen_active(rng):
+    n_a = rng.choice([2, 3, 3, 4])
+    a_names = ['a%d' % i for i in range(n_a)]
+    n_keep = 1 if n_a == 2 else rng.choice([1, 2])
+    keepers, victims = a_names[:n_keep], a_names[n_keep:]
+    idx = [0]
+
+    def nxt():
+        idx[0] += 1
+        return idx[0]
+    setup = [{'op': 'connect', 'h': HA, 't': 't' + nm, 'ns': NS, 'name': nm} for nm in a_names]
+    setup += [{'op': 'connect', 'h': HB, 't': 'tb%d' % i, 'ns': NS, 'name': 'b%d' % i} for i in range(2)]
+    for nm in a_names + ['b0', 'b1']:
+        for r in ('r1', 'r2'):
+            if rng.random() < 0.45:
+                setup.append({'op': 'enter', 'via': rng.choice([HA, HB]), 'ns': NS, 'sid': nm, 'room': {'r': r}})
+    scripts = {}
+    asked = collections.Counter()
+    tokens = []
+    for _ in range(rng.randint(1, 3)):
+        tok = nxt()
+        b = rng.choice(['b0', 'b1'])
+        setup.append({'op': 'emit', 'via': HA, 'ns': NS, 'to': {'s': b}, 'skip': None, 'cb': tok, 'idx': tok,
+                      'data': rng.choice(['int', 'none'])})
+        tokens.append((b, asked[b], tok))
+        asked[b] += 1
+        s, subs = gen_script(rng, nxt, keepers, victims, 0)
+        scripts['cb%d' % tok] = s
+        scripts.update(subs)
+    for v in victims:
+        if rng.random() < 0.8:
+            s, subs = gen_script(rng, nxt, keepers, victims, 0, self_sid=v)
+            scripts['disc:' + v] = s
+            scripts.update(subs)
+    stream = []
+    rng.shuffle(tokens)
+    todo_acks = list(tokens)
+    todo_disc = [v for v in victims if rng.random() < 0.8]
+    for _ in range(rng.randint(3, 9)):
+        x = rng.random()
+        if x < 0.35 and todo_acks:
+            b, n, tok = todo_acks.pop(0)
+            stream.append({'op': 'ack', 'ns': NS, 'sid': b, 'n': n, 'args': rng.choice([[], [tok], ['ok', tok]])})
+        elif x < 0.55 and todo_disc:
+            stream.append({'op': 'disconnect', 'via': HB, 'ns': NS, 'sid': todo_disc.pop(0)})
+        elif x < 0.80:
+            i = nxt()
+            to = rng.choice([None, None, {'r': 'r1'}, {'r': 'r2'}, {'s': rng.choice(a_names)}])
+            stream.append({'op': 'emit', 'via': HB, 'ns': NS, 'to': to, 'skip': None, 'cb': None, 'idx': i,
+                           'data': rng.choice(c07.DATA_KINDS)})
+        elif x < 0.93:
+            stream.append({'op': rng.choice(['enter', 'leave']), 'via': HB, 'ns': NS, 'sid': rng.choice(a_names),
+                           'room': {'r': rng.choice(['r1', 'r2'])}})
+        else:
+            stream.append({'op': 'close', 'via': HB, 'ns': NS, 'room': {'r': rng.choice(['r1', 'r2'])}})
+    for b, n, tok in todo_acks:
+        stream.insert(rng.randint(0, len(stream)),
+                      {'op': 'ack', 'ns': NS, 'sid': b, 'n': n, 'args': rng.choice([[], [tok]])})
+    # per client the acknowledgements are sent in the order the events were received (the n-th ask exists by then)
+    for v in todo_disc:
+        stream.insert(rng.randint(0, len(stream)), {'op': 'disconnect', 'via': HB, 'ns': NS, 'sid': v})
+    last = nxt()
+    stream.append({'op': 'emit', 'via': HB, 'ns': NS, 'to': None, 'skip': None, 'cb': None, 'idx': last, 'data': 'int'})
+    return {'active': True, 'setup': setup, 'scripts': scripts, 'stream': stream, 'sentinel': 'e%d' % last,
+            'keepers': keepers, 'victims': victims}
+
+
+class Blocked(Exception):
+    """asyncio: the loop ran dry and the listener had not finished the message"""
+
+    def __init__(self, k, msg, where):
+        Exception.__init__(self, k, msg, where)
+        self.k, self.msg, self.where = k, msg, where
+
+
+class ActiveRun:
+    """One case on two real servers.  `inside=True`: the application's callbacks and disconnect handlers do their
+    work (calls of the server's own API) where the library invokes them — for those reached from hA's listener,
+    inside `_thread()`.  `inside=False` (the reference): code reached from the listener only notes that it was
+    invoked (and raises if scripted to); the same API calls are then made by the harness from the top level as soon as
+    the listener has finished that message.  hA's listener is given one channel entry at a time."""
+
+    def __init__(self, family, case, inside, progress):
+        self.family = family
+        self.is_async = family == 'asyncio'
+        self.case = case
+        self.inside = inside
+        self.progress = progress
+        self.pw = WP.PubSubWorld(family, 2, namespaces=[NS], host_ids=[HA, HB])
+        self.names = c07.Names()
+        self.tid_of = {}
+        self.tids = []
+        self.asked = collections.defaultdict(list)      # client -> ack ids it was asked for, in order
+        self.acked = collections.Counter()
+        self.frames = collections.defaultdict(list)
+        self.app = []
+        self.due = []
+        self.listening = False
+        self.steps = []
+        w = self.pw.hosts[0]
+        w.sio.on('disconnect', self._disc_handler(), namespace=NS)
+
+    # -- the application
+    def _call_of(self, act):
+        names = self.names
+        a = act['a']
+        if a == 'emit':
+            ev, data = c07.payload(act)
+            target, skip = c07.api_args(names, act)
+            cb = self.mk_cb(act['cb']) if act['cb'] is not None else None
+            return 'emit', (ev, data), dict(to=target, skip_sid=skip, namespace=act['ns'], callback=cb)
+        if a in ('enter', 'leave'):
+            return a + '_room', (names.sid(act['sid']), names.room(act['room'])), dict(namespace=act['ns'])
+        if a == 'close':
+            return 'close_room', (names.room(act['room']),), dict(namespace=act['ns'])
+        if a == 'disconnect':
+            return 'disconnect', (names.sid(act['sid']),), dict(namespace=act['ns'])
+        if a == 'rooms':
+            return 'rooms', (names.sid(act['sid']),), dict(namespace=act['ns'])
+        if a == 'session':
+            return 'save_session', (names.sid(act['sid']), {'v': act['v']}), dict(namespace=act['ns'])
+        raise ValueError(a)
+
+    def _note(self, key, i, act, r):
+        if r[0] == 'ok' and act['a'] == 'rooms':
+            r = ('ok', sorted(self.names.back(x) for x in r[1]))
+        elif r[0] == 'ok':
+            r = ('ok', None if r[1] is None else repr(r[1]))
+        self.app.append(('act', key, i, act['a'], list(r)))
+
+    def script_sync(self, key):
+        sio = self.pw.hosts[0].sio
+        for i, act in enumerate(self.case['scripts'].get(key, {}).get('acts', [])):
+            name, a, k = self._call_of(act)
+            try:
+                r = ('ok', getattr(sio, name)(*a, **k))
+            except Exception as ex:   # noqa
+                r = ('exc', type(ex).__name__)
+            self._note(key, i, act, r)
+
+    async def script_async(self, key):
+        import inspect
+        sio = self.pw.hosts[0].sio
+        for i, act in enumerate(self.case['scripts'].get(key, {}).get('acts', [])):
+            name, a, k = self._call_of(act)
+            try:
+                v = getattr(sio, name)(*a, **k)
+                if inspect.isawaitable(v):
+                    v = await v
+                r = ('ok', v)
+            except Exception as ex:   # noqa
+                r = ('exc', type(ex).__name__)
+            self._note(key, i, act, r)
+
+    def _defer(self):
+        return self.listening and not self.inside
+
+    def _app_code(self, key, record):
+        """-> the function the application registers (a coroutine function on the asyncio server)"""
+        raises = bool(self.case['scripts'].get(key, {}).get('raise'))
+        if self.is_async:
+            async def acode(*a):
+                self.app.append(record(*a))
+                if self._defer():
+                    self.due.append(key)
+                else:
+                    await self.script_async(key)
+                if raises:
+                    raise W.HandlerError(key)
+            return acode
+
+        def code(*a):
+            self.app.append(record(*a))
+            if self._defer():
+                self.due.append(key)
+            else:
+                self.script_sync(key)
+            if raises:
+                raise W.HandlerError(key)
+        return code
+
+    def mk_cb(self, tok):
+        return self._app_code('cb%d' % tok, lambda *a: ('cb', tok, list(a)))
+
+    def _disc_handler(self):
+        # one handler for all clients: the script is chosen by the client's name
+        run = self
+
+        if self.is_async:
+            async def on_disconnect(sid, reason=None):
+                nm = run.names.back(sid)
+                await run._app_code('disc:' + nm, lambda *a: ('disc', nm))()
+            return on_disconnect
+
+        def on_disconnect(sid, reason=None):
+            nm = run.names.back(sid)
+            run._app_code('disc:' + nm, lambda *a: ('disc', nm))()
+        return on_disconnect
+
+    def run_due(self):
+        """reference mode: what the code reached from the listener would have done, from the top level"""
+        w = self.pw.hosts[0]
+        while self.due:
+            key = self.due.pop(0)
+            if self.is_async:
+                w.loop.run_until_complete(self.script_async(key))
+            else:
+                self.script_sync(key)
+
+    # -- driving
+    def do_op(self, op):
+        pw, names = self.pw, self.names
+        k = op['op']
+        if k == 'connect':
+            self.tids.append(op['t'])
+            sid, _rest = pw.connect(op['h'], op['t'], op['ns'])
+            names.bind(op['name'], sid)
+            self.tid_of[op['name']] = op['t']
+        elif k == 'enter':
+            pw.api(op['via'], 'enter_room', names.sid(op['sid']), names.room(op['room']), namespace=op['ns'])
+        elif k == 'leave':
+            pw.api(op['via'], 'leave_room', names.sid(op['sid']), names.room(op['room']), namespace=op['ns'])
+        elif k == 'close':
+            pw.api(op['via'], 'close_room', names.room(op['room']), namespace=op['ns'])
+        elif k == 'disconnect':
+            pw.api(op['via'], 'disconnect', names.sid(op['sid']), namespace=op['ns'])
+        elif k == 'emit':
+            ev, data = c07.payload(op)
+            target, skip = c07.api_args(names, op)
+            cb = self.mk_cb(op['cb']) if op['cb'] is not None else None
+            pw.api(op['via'], 'emit', ev, data, to=target, skip_sid=skip, namespace=op['ns'], callback=cb)
+        elif k == 'ack':
+            self.ack(op['sid'], op['n'], op['args'])
+        self.collect()
+
+    def ack(self, nm, n, args):
+        if n < len(self.asked[nm]):
+            for fr in c07.ack_frame(NS, self.asked[nm][n], args):
+                self.pw.recv(self.tid_of[nm], fr)
+
+    def collect(self):
+        for t in self.tids:
+            fr = c07.canon_frames(self.pw.sent(t))
+            nm = t[1:]
+            for f in fr:
+                if f[0] == 'event' and f[3] is not None:
+                    self.asked[nm].append(f[3])
+            self.frames[t] += fr
+
+    def msg_text(self, pos):
+        raw = self.pw.chan.msgs[pos]
+        try:
+            return json.dumps(C.jsonable(c07.canon_pub(self.names, pickle.loads(raw))), sort_keys=True)
+        except Exception:   # noqa
+            return repr(raw)[:120]
+
+    def listen_all(self):
+        """hA's listener takes the channel entry by entry, until it has seen everything"""
+        pw = self.pw
+        m = pw.mgr[0]
+        while m.cursor < len(pw.chan.msgs):
+            k = m.cursor - self.start      # counted from the first entry of the stream
+            self.progress[:3] = ['listener of hA, message %d' % k, k, self.msg_text(m.cursor)]
+            self.listening = True
+            try:
+                if self.is_async:
+                    ended = pw.deliver(HA, 1, quiescent=True)
+                else:
+                    # as in production the listener is a thread of its own: what it holds when it returns is
+                    # held against every other thread (the one that makes the harness's and the reference's calls)
+                    box = {}
+                    t = threading.Thread(target=lambda: box.update(r=pw.deliver(HA, 1)), daemon=True,
+                                         name='c15-listener-of-hA')
+                    self.progress.append(t)
+                    t.start()
+                    t.join()            # (the watchdog of `watched` is what ends a wait that never ends)
+                    self.progress.pop()
+                    ended = box['r']
+            finally:
+                self.listening = False
+            if ended[0] == 'pending':
+                raise Blocked(k, self.msg_text(m.cursor - 1), ended[1])
+            self.steps.append([k, ended[0] if ended[0] == 'ok' else ended[1]])
+            self.progress[:3] = ['application code deferred from message %d, at the top level' % k, k, '']
+            self.run_due()
+            self.collect()
+
+    def run(self):
+        pw = self.pw
+        try:
+            self.progress[:3] = ['set-up', -1, '']
+            for op in self.case['setup']:
+                self.do_op(op)
+                for h in (HA, HB):
+                    pw.deliver(h, BIG)
+                self.collect()
+            pw.log.clear()
+            self.progress[:3] = ['hB publishes the stream', -1, '']
+            start = self.start = len(pw.chan.msgs)
+            for op in self.case['stream']:
+                self.do_op(op)
+            self.listen_all()
+            # what hA's application published reaches hB and its clients; they acknowledge what asks for it;
+            # the acknowledgements come back over the channel
+            self.progress[:3] = ['hB drains the channel', -1, '']
+            pw.deliver(HB, BIG)
+            self.collect()
+            for nm in ('b0', 'b1'):
+                n0 = self.acked[nm] = sum(1 for op in self.case['stream'] if op['op'] == 'ack' and op['sid'] == nm)
+                for n in range(n0, len(self.asked[nm])):
+                    self.ack(nm, n, [n])
+            self.listen_all()
+            pw.deliver(HB, BIG)
+            self.collect()
+            names = self.names
+            m = pw.mgr[0]
+
+            def rn(r):
+                return '' if r is None else repr(names.back(r))
+            frames = {}
+            for t, fr in self.frames.items():
+                if ('disc', NS) in fr:          # a disconnected client observes nothing more
+                    fr = fr[:fr.index(('disc', NS)) + 1]
+                frames[t] = fr
+            log = []
+            for host, lvl, msg, exc in pw.log:
+                if lvl == 'exception':
+                    log.append((host, 'handler' if 'Handler error' in msg else 'restarted', exc))
+            return {
+                'frames': frames, 'app': self.app, 'log': log, 'steps': self.steps,
+                'rooms': sorted((ns, rn(r), names.back(s)) for ns, rs in m.rooms.items() for r, mem in rs.items()
+                                for s in mem),
+                'rooms_hB': sorted((ns, rn(r), names.back(s)) for ns, rs in pw.mgr[1].rooms.items()
+                                   for r, mem in rs.items() for s in mem),
+                'cbs': sorted((names.back(k), i) for k, dct in m.callbacks.items() for i in dct),
+                'pub': [[h, c07.canon_pub(names, d)] for h, d in pw.chan.published[start:]],
+                'unread': len(pw.chan.msgs) - m.cursor,
+                'connected': sorted(nm for nm in self.tid_of if nm.startswith('a')
+                                    and m.is_connected(names.sid(nm), NS)),
+            }
+        finally:
+            try:
+                pw.close()
+            except BaseException:   # noqa
+                pass
+
+
+def watched(fn, limits=ACT_LIMITS):
+    """runs `fn(progress)` on a worker thread.  -> ('ok', value) | ('raised', exception, traceback text) |
+    ('hang', progress, stack of the thread).  The wall clock is a watchdog and nothing else: a run that has not come
+    back after limits[0] seconds (a case takes milliseconds) is started again from scratch and given limits[1]
+    seconds before the hang is believed."""
+    out = None
+    for limit in limits:
+        box = {}
+        progress = ['not started', -1, '']
+
+        def body(box=box, progress=progress):
+            try:
+                box['v'] = fn(progress)
+            except BaseException as ex:   # noqa
+                box['exc'] = ex
+                box['tb'] = traceback.format_exc()
+        t = threading.Thread(target=body, daemon=True, name='c15-case (harness calls, client traffic)')
+        t.start()
+        t.join(limit)
+        if not t.is_alive():
+            if 'exc' in box:
+                return ('raised', box['exc'], box['tb'])
+            return ('ok', box['v'])
+        stack = ''
+        for th in [x for x in progress[3:] if isinstance(x, threading.Thread)] + [t]:
+            fr = sys._current_frames().get(th.ident)
+            stack += 'thread %s:\n%s' % (th.name, ''.join(traceback.format_stack(fr)) if fr is not None
+                                         else '(no frame)\n')
+        out = ('hang', list(progress[:3]), stack, limit)
+    return out
+
+
+ACT_KEYS = ('frames', 'app', 'log', 'steps', 'rooms', 'rooms_hB', 'cbs', 'pub', 'unread', 'connected')
+
+
+def active_statement_failures(case, obs):
+    """what C15 requires of the run in which the application code ran inside the listener, stated on that run alone"""
+    bad = []
+    for k, how in obs['steps']:
+        if how != 'ok':
+            bad.append('the listener ended with %s at message %d' % (how, k))
+    if obs['unread']:
+        bad.append('%d channel entries were never processed' % obs['unread'])
+    for host, kind, exc in obs['log']:
+        if kind == 'restarted':
+            bad.append('%s: an exception (%s) escaped the per-message containment' % (host, exc))
+    # the message that follows everything else has its full effect
+    for nm in obs['connected']:
+        n = sum(1 for f in obs['frames'].get('t' + nm, []) if f[0] == 'event' and f[2] and f[2][0] == case['sentinel'])
+        if n != 1:
+            bad.append('client %s of hA received the last emit of the stream (%s) %d times' % (nm, case['sentinel'], n))
+    if KEEP not in obs['connected']:
+        bad.append('client %s, which nothing disconnects, is not connected at the end' % KEEP)
+    # every acknowledgement that came over the channel completed its callback, once; every disconnect request too
+    ran = collections.Counter((a[0], a[1]) for a in obs['app'] if a[0] in ('cb', 'disc'))
+    for op in case['setup']:
+        if op['op'] == 'emit' and op.get('cb') is not None and ran[('cb', op['cb'])] != 1:
+            bad.append('the callback of emit #%d ran %d times (its acknowledgement came over the channel once)'
+                       % (op['cb'], ran[('cb', op['cb'])]))
+    for op in case['stream']:
+        if op['op'] == 'disconnect' and ran[('disc', op['sid'])] != 1:
+            bad.append('the disconnect handler ran %d times for %s' % (ran[('disc', op['sid'])], op['sid']))
+    n_raise = sum(1 for a in obs['app'] if a[0] in ('cb', 'disc')
+                  and case['scripts'].get('cb%d' % a[1] if a[0] == 'cb' else 'disc:' + a[1], {}).get('raise'))
+    n_logged = sum(1 for host, kind, exc in obs['log'] if kind == 'handler' and host == HA)
+    # (a raising handler of a disconnect the application itself asked for raises into that application code)
+    if n_logged > n_raise:
+        bad.append('%d errors logged by the listener, the application code raised %d times' % (n_logged, n_raise))
+    # the application's own calls have their normal effect
+    acts = {}
+    for key, sc in case['scripts'].items():
+        for i, act in enumerate(sc['acts']):
+            acts[(key, i)] = act
+    # (a client of hB that the application disconnects may be gone before it can acknowledge)
+    b1_leaves = any(act['a'] == 'disconnect' and act['sid'] == 'b1' for act in acts.values())
+    for a in obs['app']:
+        if a[0] != 'act':
+            continue
+        act = acts[(a[1], a[2])]
+        res = a[4]
+        if act['a'] == 'disconnect' and res == ['exc', 'HandlerError'] \
+                and case['scripts'].get('disc:' + act['sid'], {}).get('raise'):
+            continue            # the disconnect handler of that client is scripted to raise: it raises into its caller
+        if act['a'] != 'session' and res[0] != 'ok':
+            bad.append('%s called from the application code %s raised %s' % (act['a'], a[1], res[1]))
+            continue
+        if act['a'] == 'emit':
+            ev = 'e%d' % act['idx']
+            n_pub = sum(1 for h, p in obs['pub'] if h == HA and p.get('method') == 'emit' and p.get('event') == ev)
+            if n_pub != 1:
+                bad.append('emit(%s) called from the application code %s was published %d times' % (ev, a[1], n_pub))
+            to = act['to']
+            skip = c07.skip_list(act['skip'])
+            if (to is None or to == {'s': KEEP} or 'list' in to) and KEEP not in skip:
+                n = sum(1 for f in obs['frames'].get('t' + KEEP, []) if f[0] == 'event' and f[2] and f[2][0] == ev)
+                if n != 1:
+                    bad.append('emit(%s, to=%r) called from the application code %s reached client %s %d times'
+                               % (ev, to, a[1], KEEP, n))
+            if to is not None and to.get('s') in ('b0', 'b1') and act['cb'] is not None \
+                    and not (to['s'] == 'b1' and b1_leaves) and ran[('cb', act['cb'])] != 1:
+                bad.append('the callback of emit(%s) issued from the application code %s ran %d times'
+                           % (ev, a[1], ran[('cb', act['cb'])]))
+    return bad
+
+
+def judge_active(ctx, family, case, limits=ACT_LIMITS, verbose=False):
+    """-> (list of failures, observation or None, stats)"""
+    stats = collections.Counter()
+    how = watched(lambda progress: ActiveRun(family, case, True, progress).run(), limits)
+    if how[0] == 'hang':
+        _h, progress, stack, limit = how
+        what = ('the listener did not finish processing message %d (%s): it is blocked' % (progress[1], progress[2])
+                if progress[1] >= 0 and progress[0].startswith('listener') else
+                'the run is blocked at: %s' % progress[0])
+        return [what, 'no progress for %.0f s in a run that takes milliseconds (started twice); the blocked '
+                      'thread is at:\n%s' % (limit, stack)], None, stats
+    if how[0] == 'raised':
+        if isinstance(how[1], Blocked):
+            ex = how[1]
+            return ['the listener did not finish processing message %d (%s): it is blocked'
+                    % (ex.k, ex.msg), 'the event loop has nothing left to run and the listener task is still '
+                    'pending:\n%s' % ex.where], None, stats
+        raise C.Infra('C15 active case failed in the harness (%s):\n%s' % (family, how[2]))
+    obs = how[1]
+    bad = active_statement_failures(case, obs)
+    ref = watched(lambda progress: ActiveRun(family, case, False, progress).run(), limits)
+    if ref[0] == 'ok':
+        for key in ACT_KEYS:
+            if jl(obs[key]) != jl(ref[1][key]):
+                bad.append('%s: with the application code running inside the listener %r; with the same calls made '
+                           'right after the listener finished the message %r' % (key, obs[key], ref[1][key]))
+    elif ref[0] == 'hang':
+        stats['blocked'] += 1
+        bad.insert(0, 'the reference run (application calls made from outside the listener) is blocked at: %s\n%s'
+                   % (ref[1][0], ref[2]))
+    elif isinstance(ref[1], Blocked):
+        bad.append('the reference run: the listener did not finish processing message %d (%s)\n%s'
+                   % (ref[1].k, ref[1].msg, ref[1].where))
+    else:
+        raise C.Infra('C15 active case (reference run) failed in the harness (%s):\n%s' % (family, ref[2]))
+    for a in obs['app']:
+        if a[0] == 'act':
+            stats['application_calls_made_inside_the_listener_or_below_it.' + a[3]] += 1
+        else:
+            stats['application_code_run.' + ('callback' if a[0] == 'cb' else 'disconnect_handler')] += 1
+    stats['channel_entries_processed_one_by_one'] += len(obs['steps'])
+    return bad, obs, stats
+
+
+def active_part(ctx):
+    rng = ctx.rng
+    n = ctx.scale(220, 3000)
+    cov = collections.Counter()
+    failures = 0
+    sample = None
+    for _ in range(n):
+        case = gen_active(rng)
+        if sample is None and len(case['stream']) <= 5:
+            sample = case
+        stop = False
+        for family in ('threading', 'asyncio'):
+            bad, obs, stats = judge_active(ctx, family, case)
+            cov['runs.' + family] += 1
+            for k, v in stats.items():
+                if k != 'blocked':
+                    cov[k + '.' + family] += v
+            if obs is not None and any(a[0] in ('cb', 'disc') for a in obs['app']):
+                cov['runs_in_which_application_code_ran.' + family] += 1
+            if bad:
+                failures += 1
+                ctx.violation('oracle', 'application code active inside the listener (%s): %s' % (family, bad[0]),
+                              dict(case, family=family, failures=bad[:6], observed=jl(obs) if obs else None))
+                if obs is None or stats.get('blocked'):
+                    stop = True            # a blocked listener costs the watchdog's full limit each time
+        for key, sc in case['scripts'].items():
+            ctx.count('active.script.' + key.split(':')[0].rstrip('0123456789'))
+            if sc['raise']:
+                ctx.count('active.script.raises_at_the_end')
+        if stop or failures >= 3:
+            break
+    ctx.coverage['application_code_active_in_the_listener'] = dict(
+        cov, sample=sample,
+        rule='one run = a case (clients on two hosts, rooms, emits with callbacks from hA to clients of hB; hB then '
+             'publishes acknowledgements, disconnect requests for clients of hA, emits and room changes) whose '
+             'application callbacks and disconnect handlers on hA call the server\'s own API (emit with and without '
+             'callback, enter/leave/close_room, disconnect of another local or a remote client, rooms, save_session; '
+             'some raise afterwards); hA\'s real _thread() processes the channel one entry at a time, on a worker '
+             'thread under a watchdog (threaded) / until the event loop is idle (asyncio); judged by: every entry is '
+             'processed and the listener returns, the last emit of the stream reaches every connected client, every '
+             'callback / disconnect handler runs once, each API call made from that code returns normally, is '
+             'published once and reaches the client that nothing disconnects; and everything observable equals a '
+             'second run in which the same calls are made from outside the listener right after the entry')
+
+
 # ---------------------------------------------------------------- Redis retry loops (thorough tier)
 
 class StopScript(BaseException):
@@ -1849,6 +2434,7 @@ def run(ctx):
                 nontriv.add(hashlib.sha1(json.dumps(case, sort_keys=True).encode()).hexdigest())
                 if len(samples) < 2 and len(case['stream']) <= 8:
                     samples.append(case)
+        active_part(ctx)
         redis_part(ctx, drv)
         redis_e2e_part(ctx)
     finally:
@@ -1882,6 +2468,35 @@ def run(ctx):
     ]
 
 
+def replay_active(ctx, r):
+    case = {k: r[k] for k in ('active', 'setup', 'scripts', 'stream', 'sentinel', 'keepers', 'victims')}
+    fams = [r['family']] if r.get('family') else ['threading', 'asyncio']
+    rc = 0
+    print('set-up:')
+    for op in case['setup']:
+        print('    %s' % json.dumps(op))
+    print('application code on hA (what each callback / disconnect handler does when it is invoked):')
+    for key, sc in sorted(case['scripts'].items()):
+        print('    %s%s' % (key, '   [raises HandlerError afterwards]' if sc['raise'] else ''))
+        for act in sc['acts']:
+            print('        %s' % json.dumps(act))
+    print('published by hB while hA is not listening; then hA\'s _thread() takes the channel entry by entry:')
+    for i, op in enumerate(case['stream']):
+        print('%3d %s' % (i, json.dumps(op)))
+    for family in fams:
+        print('--- %s' % family)
+        bad, obs, _stats = judge_active(ctx, family, case)
+        if obs is not None:
+            print('messages processed (index from the start of the stream, how _thread() returned): %r' % (obs['steps'],))
+            print('application code run: %r' % (obs['app'],))
+            print('frames: %r' % (obs['frames'],))
+            print('log: %r   unread: %r   connected: %r' % (obs['log'], obs['unread'], obs['connected']))
+        print('oracle: %s' % ('FAILS:\n  ' + '\n  '.join(bad) if bad else 'holds'))
+        if bad:
+            rc = 1
+    return rc
+
+
 def replay(ctx, r):
     r = r.get('replay', r)
     if 'redis_case' in r:
@@ -1904,6 +2519,8 @@ def replay(ctx, r):
     if 'plan' in r:
         print(run_redis(r['plan'], r.get('async', False)))
         return 0
+    if r.get('active'):
+        return replay_active(ctx, r)
     case = {k: r[k] for k in ('setup', 'stream', 'faults')}
     fams = [r['family']] if r.get('family') else ['threading', 'asyncio']
     drv = C.Driver('pubsub')
